@@ -190,6 +190,33 @@ def run_fvss(ck, prop, tier, vh, seed):
     ck.cov['traces_validated_against_impl'] = ck.cov.get('traces_validated_against_impl', 0) + nres - mism
 
 
+def run_big(ck, prop, tier, vh, seed):
+    """all-honest runs at the edges of the size / threshold / index ranges, on real objects (harness/dkgsim/big.go)"""
+    big = [('qual', 254, 1, 0, [0, 1, 253]), ('qual', 254, 2, 253, [0, 252, 253]), ('qual', 2, 1, 1, [0, 1]), ('qual', 2, 1, 0, [0, 1]),
+           ('jf', 24, 1, 0, []), ('jf', 10, 9, 0, []), ('jf', 2, 1, 0, []), ('qual', 128, 127, 127, [0, 127]), ('qual', 255 - 1, 3, 100, [0, 100, 127, 128, 253]),
+           ('qual', 17, 16, 16, list(range(17))), ('qual', 9, 4, 8, list(range(9)))]
+    if tier == 'thorough':
+        big += [('qual', 254, 253, 253, [0, 253]), ('qual', 200, 100, 0, [0, 1, 199]), ('jf', 40, 13, 0, []), ('jf', 16, 15, 0, []), ('jf', 64, 1, 0, []),
+                ('qual', 254, 127, 127, [126, 127, 128]), ('qual', 129, 64, 128, list(range(60, 129)))]
+    cp = os.path.join(vlib.subdir('scripts'), 'big.ndjson')
+    with open(cp, 'w') as f:
+        for k, (proto, n, t, d, mem) in enumerate(big):
+            f.write(json.dumps({'id': 'big-%d' % k, 'proto': proto, 'n': n, 't': t, 'dealer': d, 'members': mem, 'seed': seed * 31 + k}) + '\n')
+    rp = os.path.join(vlib.subdir('results'), 'big.ndjson')
+    vlib.run([vh, 'dkg-big', '--in', cp, '--out', rp], check=True, timeout=3000)
+    n = 0
+    for line, b in zip(open(rp), big):
+        r = json.loads(line)
+        n += 1
+        for v in r['violations']:
+            if v['property'] == prop:
+                ck.violation('%s:%s' % (prop, v['predicate']), '%s: %s' % (v['predicate'], v['detail']), {'family': 'dkg-big', 'case': list(b)})
+        ck.case('big:' + vlib.digest(list(b)), True)
+    if n != len(big):
+        raise vlib.Undecided('dkg-big returned %d of %d results' % (n, len(big)))
+    ck.cov['all_honest_runs_at_range_edges'] = [list(b[:4]) for b in big]
+
+
 def run_repo_tests(ck, vh, tier):
     """the repository's own DKG tests, recorded through the hook verifTraceDKG and validated against DKGNodeTrace.tla"""
     import re
@@ -300,6 +327,7 @@ def run(prop, tier):
     vh = vlib.build_vh()
     run_fvss(ck, prop, tier, vh, seed)
     run_repo_tests(ck, vh, tier)
+    run_big(ck, prop, tier, vh, seed)
     all_results = []
     per_net = {}
     for (proto, n, t, dealer, byz) in NETS[tier]:
